@@ -108,6 +108,11 @@ type matchesAnything struct{}
 func (matchesAnything) Error() string   { return "an error that matches anything" }
 func (matchesAnything) Is(error) bool   { return true }
 
+// nilReceiverStringer's String method does not guard against a nil receiver (like (*url.URL).String).
+type nilReceiverStringer struct{ host string }
+
+func (s *nilReceiverStringer) String() string { return "endpoint " + s.host }
+
 // nilReceiverError's Error method does not guard against a nil receiver.
 type nilReceiverError struct{ msg string }
 
